@@ -7,6 +7,9 @@ class ElemV:
     def __init__(self, keyword, value):
         self.keyword, self.value = keyword, value
 
+    def truth(self, I):
+        return True           # pydicom DataElement defines neither __bool__ nor __len__
+
     def sym_getattr(self, I, name):
         if name == "keyword":
             return self.keyword
